@@ -54,6 +54,9 @@ use jsonrpsee_types::error::{
 };
 use jsonrpsee_types::{ErrorObject, Id};
 use soketto::handshake::http::is_upgrade_request;
+#[cfg(jsonrpsee_verif)]
+use jsonrpsee_core::verif::net::{TcpListener, TcpStream, ToSocketAddrs};
+#[cfg(not(jsonrpsee_verif))]
 use tokio::net::{TcpListener, TcpStream, ToSocketAddrs};
 use tokio::sync::{OwnedSemaphorePermit, mpsc, watch};
 use tokio_util::compat::TokioAsyncReadCompatExt;
